@@ -760,6 +760,21 @@ fn target_cases(ti: usize) -> BoxedStrategy<Case> {
         ));
     }
     let all = proptest::strategy::Union::new_weighted(opts);
+    // ANSI-family files: a sixel somewhere after (or inside) the mutated region; every such file costs >= 50 ms, hence the small share
+    let ansi_family = t.kind == Kind::Ext && matches!(t.emu, Some(EMU_ANSI | EMU_AVATAR | EMU_PCB | EMU_CTRLA | EMU_RENEGADE));
+    let all = if ansi_family {
+        let share = if THOROUGH.load(std::sync::atomic::Ordering::Relaxed) { 0.08 } else { 0.02 };
+        (all, prop::option::weighted(share, prop_oneof![3 => Just(u16::MAX), 1 => any::<u16>()]))
+            .prop_map(|(mut c, sixel)| {
+                if let Some(sel) = sixel {
+                    c.muts.push(Mut::Sixel { sel });
+                }
+                c
+            })
+            .boxed()
+    } else {
+        all.boxed()
+    };
     if t.kind == Kind::Ext {
         // the file name is a dimension of Buffer::from_bytes: one case in eight is loaded under another spelling
         (all, prop::option::weighted(0.125, prop_oneof![8 => 1u8..FILE_NAMES.len() as u8, 1 => Just(255u8)]))
@@ -774,6 +789,8 @@ fn target_cases(ti: usize) -> BoxedStrategy<Case> {
         all.boxed()
     }
 }
+
+static THOROUGH: std::sync::atomic::AtomicBool = std::sync::atomic::AtomicBool::new(false);
 
 fn family_cases(f: Family) -> BoxedStrategy<Case> {
     let opts: Vec<(u32, BoxedStrategy<Case>)> = TARGETS.iter().enumerate().filter(|(_, t)| t.family == f).map(|(i, t)| (t.weight, target_cases(i))).collect();
@@ -1216,6 +1233,8 @@ fn main() {
          extensions, a directory part with extension, trailing dot / space / slash, unknown, non-ASCII and non-UTF-8 extensions, the empty name (table x every extension target; one generated buffer case in eight). \
          Pairs (every truncation 0..=header+8 x every size/offset/count field in {0,1,len-1,len,len+1, len relative to the field}) for PSF1/PSF2 (direct, CTerm:Font DCS in .ans, FONT_ record in .icy), \
          ICED / FONT_ / LAYER_ records, XBin, iCE Draw, TheDraw fonts (first and second font of a bundle), SAUCE comment count x bytes in front of the record (direct, .ans, .bin, .icy), sixel raster attributes; \
+         sixels combined with other features (font DCS with an extreme size field + text + sixel; CSI sequence + sixel + character after {nothing, margins, 132-column text area + cursor far right}; \
+         two-sequence set-ups from {resize wider, narrower, margins, cursor far right/bottom, origin mode} + cursor movement + sixel; a sixel appended to 2 % of the generated ANSI-family files); \
          CSI table for ANSI-family files: prefix {none, 90 LF, text + margins} x final 0x40..0x7E x 8 intermediates x parameter lists (length <= 2) over {0,1,25,65536,2147483599,2147483647}, REP capped at 9999. \
          Non-trivial: the loader got past its magic / minimum-length check: it returned Ok with content (a buffer from non-empty input; for IcyDraw a document with layers; Some(sauce); >= 1 colour), \
          or it returned an error that is not one of the magic/length errors and differs from the error for the header bytes alone. Distinct by hash of the case.",
@@ -1228,6 +1247,7 @@ fn main() {
     eng.assume("PaletteFormat::Ase is not a loader (todo!() for every input) and is not called");
     eng.assume("hangs and memory growth are C03's subject: timeouts and heap-cap hits (512 MiB per file, e.g. an IcyDraw layer record with width 0x7FFFFFFF or a cursor movement by 2^31 rows) are counted as inconclusive, not as violations (heapcap_is_violation(false) on every part); numbers in generated terminal streams are capped at 999 so that cursor movement cannot allocate gigabytes of rows; sixel decode threads are given the time parse_with_parser gives them");
     let thorough = eng.is_thorough();
+    THOROUGH.store(thorough, std::sync::atomic::Ordering::Relaxed);
     let worker = std::env::var("ICYV_WORKER").is_ok();
 
     static SYS: OnceLock<Vec<Case>> = OnceLock::new();
